@@ -8,6 +8,7 @@ iterables suspend on a gate awaitable, and which task runs next at every suspens
 task's output must equal the output of the same template rendered alone on a fresh, identically configured
 environment.
 """
+import types
 from typing import List
 
 from jinja2 import BaseLoader, DictLoader, Environment, select_autoescape
@@ -41,11 +42,18 @@ TPLS = {
     "j.html": "{% extends layout %}{% block body %}J{{ af(name) }}{{ super() }}{% endblock %}{% block tail %}{{ super() }}{{ af('jt') }}{% endblock %}",
     "base2.html": "({% block body %}b2{{ af('b2') }}{% endblock %}~{% block tail %}t2{% endblock %}){{ gl }}",
     "k.html": "{% if flag %}{% extends 'base.html' %}{% else %}{% extends 'base2.html' %}{% endif %}{% block body %}K{{ af(name) }}{{ super() }}{% endblock %}",
+    # process-wide state must not be keyed by something two renders can share: a namespace built from a dict global, and
+    # data whose *type* is shared by an awaitable (generator-based coroutine) and a non-awaitable (plain generator) value.
+    # Their expected output is written down (ORACLE) instead of taken from a reference run, which module-level state could taint.
+    "l.html": "{% set ns = namespace(defaults) %}{% for i in ait(items) %}{% set ns.n = ns.n + i %}{{ af(i) }}{% endfor %}={{ ns.n }}",
+    "m.html": "{{ cg(name) }}|{{ af(1) }}|{{ cg(7) }}",
+    "n.html": "{{ pg(items)|join('-') }}|{{ af(2) }}|{{ pg(items)|list|length }}",
     # known finding (see known_module_autoescape_flag_ok): a macro of a cached module with a runtime-decided autoescape region
     "flaglib.html": "{% macro m(f, v) %}{% autoescape f %}{{ af(v) }}{{ v }}{% endautoescape %}{% endmacro %}",
     "flaguse.html": "{% import 'flaglib.html' as lib %}{{ lib.m(flag, name) }}",
 }
-MAINS = ["a.html", "b.html", "c.html", "d.txt", "e.html", "f.html", "g.html", "h.html", "i.html", "j.html", "k.html"]
+MAINS = ["a.html", "b.html", "c.html", "d.txt", "e.html", "f.html", "g.html", "h.html", "i.html", "j.html", "k.html", "l.html", "m.html", "n.html"]
+ORACLE = {"l.html": lambda c: "12=3", "m.html": lambda c: c["name"].replace("<", "&lt;") + "|1|7", "n.html": lambda c: "1-2|2|2"}
 P = {}
 
 
@@ -65,8 +73,15 @@ def _mkenv():
                 await Gate()
                 yield x
         return gen()
+    @types.coroutine
+    def cg(v):
+        yield Gate()
+        return v
+
+    def pg(xs):
+        return (x for x in xs)
     env = Environment(loader=CodeLoader(), enable_async=True, autoescape=select_autoescape())
-    env.globals.update(af=af, ait=ait, gl="GL")
+    env.globals.update(af=af, ait=ait, gl="GL", cg=cg, pg=pg, defaults={"n": 0})
     return env
 
 
@@ -113,7 +128,7 @@ def sched_native(names, warm, picks):
     expected = []
     for i, (n, c) in enumerate(zip(names, ctxs)):
         if (n, i) not in EXPECTED:
-            EXPECTED[(n, i)] = _alone(_mkenv(), n, c)
+            EXPECTED[(n, i)] = ("ok", ORACLE[n](c)) if n in ORACLE else _alone(_mkenv(), n, c)
         expected.append(EXPECTED[(n, i)])
     env = _mkenv()
     if warm:
@@ -202,7 +217,7 @@ def known_module_autoescape_flag_ok():
 
 def conditions(tier, seed):
     th = tier == "thorough"
-    to = 300 if th else 100
+    to = 300 if th else 150
     out = []
     npk = 10 if th else 7
     for lo in range(len(MAINS)):
